@@ -290,6 +290,10 @@ Fixpoint convert_outputs (T : tables) (reqs : list (string * lres)) (outs : list
 (* ---------- comparison with what the implementation did (evaluated inside Coq by the harness) ---------- *)
 
 Definition rel_close (tol a b : Q) : bool := Qle_bool (Qabs (a - b)) (tol * Qmax (Qabs a) (Qabs b)).
+(* relative closeness, or absolute closeness below [fl]: units with an offset (degC, degF) produce values near 0 by
+   cancellation of numbers of the size of the offset, where only an absolute comparison is meaningful; fl = tol * offset *)
+Definition aclose (tol fl a b : Q) : bool := rel_close tol a b || Qle_bool (Qabs (a - b)) fl.
+Definition off_floor (tol : Q) (us : list punit) : Q := tol * fold_right (fun u m => Qmax (Qabs (pu_off u)) m) 0 us.
 
 Definition uref_eqb (a b : uref) : bool :=
   match a, b with
@@ -302,9 +306,9 @@ Inductive obs : Type :=
 | OOk (v : Q) (cur : uref) (prov : bool)
 | OErr (code : Z).
 
-Definition agree_state (tol : Q) (m : rres pstate) (o : obs) : bool :=
+Definition agree_state (tol fl : Q) (m : rres pstate) (o : obs) : bool :=
   match m, o with
-  | ROk st, OOk v cur prov => rel_close tol (p_value st) v && uref_eqb (p_cur st) cur && Bool.eqb (p_provided st) prov
+  | ROk st, OOk v cur prov => aclose tol fl (p_value st) v && uref_eqb (p_cur st) cur && Bool.eqb (p_provided st) prov
   | RErr c, OErr d => Z.eqb c d
   | _, _ => false
   end.
@@ -313,30 +317,30 @@ Inductive oobs : Type :=
 | OOut (vals : list Q) (cur : uref)
 | OOutErr (code : Z).
 
-Fixpoint all_rel_close (tol : Q) (a b : list Q) : bool :=
+Fixpoint all_aclose (tol fl : Q) (a b : list Q) : bool :=
   match a, b with
   | [], [] => true
-  | x :: a', y :: b' => rel_close tol x y && all_rel_close tol a' b'
+  | x :: a', y :: b' => aclose tol fl x y && all_aclose tol fl a' b'
   | _, _ => false
   end.
 
-Definition agree_output (tol : Q) (m : rres ostate) (o : oobs) : bool :=
+Definition agree_output (tol fl : Q) (m : rres ostate) (o : oobs) : bool :=
   match m, o with
-  | ROk st, OOut vals cur => all_rel_close tol (o_vals st) vals && uref_eqb (o_cur st) cur
+  | ROk st, OOut vals cur => all_aclose tol fl (o_vals st) vals && uref_eqb (o_cur st) cur
   | RErr c, OOutErr d => Z.eqb c d
   | _, _ => false
   end.
 
 (* a whole OutputParameterDict after Outputs._convert_units *)
-Fixpoint agree_dict (tol : Q) (m : list (string * ostate)) (o : list (string * oobs)) : bool :=
+Fixpoint agree_dict (tol fl : Q) (m : list (string * ostate)) (o : list (string * oobs)) : bool :=
   match m, o with
   | [], [] => true
-  | (k, st) :: m', (k', ob) :: o' => String.eqb k k' && agree_output tol (ROk st) ob && agree_dict tol m' o'
+  | (k, st) :: m', (k', ob) :: o' => String.eqb k k' && agree_output tol fl (ROk st) ob && agree_dict tol fl m' o'
   | _, _ => false
   end.
-Definition agree_outputs (tol : Q) (m : rres (list (string * ostate))) (o : rres (list (string * oobs))) : bool :=
+Definition agree_outputs (tol fl : Q) (m : rres (list (string * ostate))) (o : rres (list (string * oobs))) : bool :=
   match m, o with
-  | ROk a, ROk b => agree_dict tol a b
+  | ROk a, ROk b => agree_dict tol fl a b
   | RErr c, RErr e => Z.eqb c e
   | _, _ => false
   end.
@@ -362,9 +366,9 @@ Definition oracle_read (T : tables) (tol : Q) (pref : string) (isint : bool) (x 
            | OOk v cur _ =>
                let e := convert n p x in
                let e' := if isint then inject_Z (Qtrunc e) else e in
-               if negb (rel_close tol v e') then 2%Z
+               if negb (aclose tol (off_floor tol [p; n]) v e') then 2%Z
                else match parse_uref T cur with
-                    | Some c => if same_dim c p && rel_close tol (convert c p v) v then 0%Z else 3%Z
+                    | Some c => if same_dim c p && aclose tol (off_floor tol [p; n; c]) (convert c p v) v then 0%Z else 3%Z
                     | None => 3%Z
                     end
            end
@@ -382,7 +386,7 @@ Definition oracle_echo (T : tables) (tol : Q) (pref : string) (isint : bool) (x 
                let e := convert n p x in
                let e' := if isint then inject_Z (Qtrunc e) else e in
                match parse_uref T cur with
-               | Some c => if same_dim c p && rel_close tol (convert c p v) e' then 0%Z else 3%Z
+               | Some c => if same_dim c p && aclose tol (off_floor tol [p; n; c]) (convert c p v) e' then 0%Z else 3%Z
                | None => 3%Z
                end
            end
@@ -397,7 +401,7 @@ Definition oracle_output (T : tables) (tol : Q) (cur nu : string) (vals : list Q
       else match o with
            | OOutErr _ => 1%Z
            | OOut vs c =>
-               if negb (all_rel_close tol vs (map (convert a b) vals)) then 2%Z
+               if negb (all_aclose tol (off_floor tol [a; b]) vs (map (convert a b) vals)) then 2%Z
                else if uref_eqb c (UEnum nu) then 0%Z else 3%Z
            end
   | _, _ => 9%Z
@@ -407,7 +411,7 @@ Definition oracle_output (T : tables) (tol : Q) (cur nu : string) (vals : list Q
 Definition oracle_untouched (cur : uref) (vals : list Q) (o : oobs) : Z :=
   match o with
   | OOutErr _ => 1%Z
-  | OOut vs c => if all_rel_close 0 vs vals && uref_eqb c cur then 0%Z else 2%Z
+  | OOut vs c => if all_aclose 0 0 vs vals && uref_eqb c cur then 0%Z else 2%Z
   end.
 
 (* well-formedness of a registry table: one long name, one meaning *)
